@@ -1,5 +1,6 @@
 """Obligation name (regex) -> replay driver script (run natively on /repo with /venv/bin/python)."""
 DRIVERS = [
+    (r"LogActionResult\.process/LOG", "c16_log_ids.py"),
     (r"TracepointConfigService\.(add_custom|remove_custom)/", "c13_handles.py"),
     (r"TaskHandler\.flush/", "c09_flush.py"),
     (r"config/__init__\.py:IN_APP_|LongPoll\.start/PRE", "c19_env_config.py"),
